@@ -214,7 +214,8 @@ class SimSock:
     """
 
     def __init__(self, data, cuts=(), peer=("10.0.0.9", 40000), name=("127.0.0.1", 8000),
-                 fault_at=None, fault_kind="EOF", choices=None, short_send=False):
+                 fault_at=None, fault_kind="EOF", choices=None, short_send=False, silence=None):
+        self.silence = silence   # seconds the peer stays silent (connected, sending nothing) once its data is used up, before it half-closes
         self.data = data
         self.cuts = list(cuts)
         self.ci = 0
@@ -274,6 +275,10 @@ class SimSock:
             return self._eof()
         self.recv_after.append(len(self.wire))
         if self.pos >= len(self.data):
+            if self.silence:
+                # the reader waits: time passes, and a keep-alive timeout armed around this read (async workers) fires here
+                wait, self.silence = self.silence, None
+                pause(wait)
             return self._eof()
         while self.ci < len(self.cuts) and self.cuts[self.ci] <= self.pos:
             self.ci += 1
